@@ -19,6 +19,7 @@ import (
 	"path/filepath"
 	"sort"
 	"strconv"
+	"strings"
 	"sync"
 
 	"verif/harness/internal/proto"
@@ -98,6 +99,9 @@ func main() {
 	c := &Ctx{Prop: os.Args[1], Tier: os.Args[2], Seed: seed, Out: os.Args[4],
 		Stats: map[string]int{}, distinct: map[uint64]struct{}{}}
 	c.Rng = rand.New(rand.NewSource(seed))
+	if strings.HasPrefix(c.Prop, "finding:") {
+		os.Exit(runFinding(strings.TrimPrefix(c.Prop, "finding:")))
+	}
 	fn, ok := registry[c.Prop]
 	if !ok {
 		fmt.Fprintln(os.Stderr, "unknown property", c.Prop)
